@@ -22,7 +22,7 @@ BUILTIN_EXC = {
     "ArithmeticError": "Exception", "AssertionError": "Exception", "UnicodeDecodeError": "ValueError",
     "FileNotFoundError": "OSError", "PermissionError": "OSError", "IsADirectoryError": "OSError",
     "NameError": "Exception", "UnboundLocalError": "NameError", "Warning": "Exception", "UserWarning": "Warning",
-    "termios.error": "Exception", "Boom": "Exception",
+    "termios.error": "Exception", "Boom": "Exception", "EOFError": "Exception", "UnicodeError": "ValueError",
 }
 
 
@@ -1768,31 +1768,34 @@ class Engine:
         if spec is None:
             raise Unsupported(f"while loop {lid} (line {n.lineno}) needs an invariant")
         outs = []
+        spec.entry = st
         self.oblige(f"loop{lid}/inv-entry", st, spec.inv(st), kind="invariant")
-        h = self.fork(st)
-        spec.havoc(self, h, f"W{lid}")
-        h.pc.append(to_z3(spec.inv(h)))
-        if not self.feasible(h.pc):
-            return outs
-        self.rstack.append([])
-        tests = self.ev(n.test, h)
-        for exc, s in self.rstack.pop():
-            outs.append(("raise", exc, s))
-        for c, s in tests:
-            for side, s2 in self.split(s, self.truth_st(c, s)):
-                if not side:
-                    if n.orelse:
-                        outs += self.run(n.orelse, s2)
-                    else:
-                        outs.append(("normal", None, s2))
-                    continue
-                for kind, val, s3 in self.run(n.body, s2):
-                    if kind in ("normal", "continue"):
-                        self.oblige(f"loop{lid}/inv-preserved", s3, spec.inv(s3), kind="invariant")
-                    elif kind == "break":
-                        outs.append(("normal", None, s3))
-                    else:
-                        outs.append((kind, val, s3))
+        h0 = self.fork(st)
+        heads = spec.havoc(self, h0, f"W{lid}")
+        heads = heads if isinstance(heads, list) else [h0]
+        for h in heads:
+            h.pc.append(to_z3(spec.inv(h)))
+            if not self.feasible(h.pc):
+                continue
+            self.rstack.append([])
+            tests = self.ev(n.test, h)
+            for exc, s in self.rstack.pop():
+                outs.append(("raise", exc, s))
+            for c, s in tests:
+                for side, s2 in self.split(s, self.truth_st(c, s)):
+                    if not side:
+                        if n.orelse:
+                            outs += self.run(n.orelse, s2)
+                        else:
+                            outs.append(("normal", None, s2))
+                        continue
+                    for kind, val, s3 in self.run(n.body, s2):
+                        if kind in ("normal", "continue"):
+                            self.oblige(f"loop{lid}/inv-preserved", s3, spec.inv(s3), kind="invariant")
+                        elif kind == "break":
+                            outs.append(("normal", None, s3))
+                        else:
+                            outs.append((kind, val, s3))
         return outs
 
 
@@ -2188,6 +2191,9 @@ def _b_str(eng, s, args, kw):
         return [(TS([tstr.IntDec(v)]), s)]
     if isinstance(v, int):
         return [(str(v), s)]
+    if isinstance(v, ExcVal) and v.cls == "AttributeError" and len(v.args) == 1 and isinstance(v.args[0], str) and getattr(v, "engine_made", True):
+        # the message CPython gives for a missing attribute (raised by the engine's own attribute lookup)
+        return [(f"'object' object has no attribute '{v.args[0]}'", s)]
     return [(Opaque("str()"), s)]
 
 
